@@ -413,6 +413,137 @@ class Gen:
         loop_variant(t, 'SearchTask.put_result', 'max_tries',
                      'loop_put_result')
 
+        # ---- straight-line arithmetic of the two line-feed scans
+        HZ = 'LogFileDateSinceSeeker.SEEK_HORIZON'
+
+        def the_loop(qual):
+            f = find_def(self.tree(c), qual)
+            loops = [n for n in ast.walk(f) if isinstance(n, ast.While)]
+            if len(loops) != 1:
+                raise Untranslatable(f"{qual}: expected one while loop")
+            return f, loops[0]
+
+        def call_arg(stmts, func_text):
+            """ (index, single positional argument) of the first top-level
+            statement that is / assigns a call of func_text """
+            for i, st in enumerate(stmts):
+                v = st.value if isinstance(st, (ast.Expr, ast.Assign)) \
+                    else None
+                if isinstance(v, ast.Call) and \
+                        ast.unparse(v.func) == func_text:
+                    if len(v.args) != 1 or v.keywords:
+                        raise Untranslatable(f"{func_text}: one argument "
+                                             "expected")
+                    return i, v.args[0]
+            raise Untranslatable(f"no top-level call of {func_text}")
+
+        def found_offset(node, what):
+            rets = [n for n in ast.walk(node) if isinstance(n, ast.Return)
+                    and isinstance(n.value, ast.Call)
+                    and ast.unparse(n.value.func) == 'SearchState'
+                    and any(k.arg == 'status' and ast.unparse(k.value) ==
+                            'FindTokenStatus.' + what
+                            for k in n.value.keywords)]
+            return rets
+
+        def ftr():
+            f, lp = the_loop('LogFileDateSinceSeeker.find_token_reverse')
+            body = lp.body
+            i_seek, seek_arg = call_arg(body, 'self.file.seek')
+            i_read, read_arg = call_arg(body, 'self.file.read')
+            if i_read != i_seek + 1:
+                raise Untranslatable("find_token_reverse: read must follow "
+                                     "seek")
+            tr = Tr(names={'start_offset': 'start', 'current_offset': 'cur',
+                           'attempts': 'attempts'}, attrs={HZ: 'H'})
+            tr.final = lambda t: (
+                f"({t.expr(seek_arg)[0]}, {t.expr(read_arg)[0]})", 'Z * Z')
+            txt, ty = tr.stmts(body[:i_seek])
+            self.exprs.append(('ftr_window', ['start', 'cur', 'attempts',
+                                              'H'], 'Z', txt, ty,
+                               '\n'.join(ast.unparse(x)
+                                         for x in body[:i_seek + 2])))
+            rest = body[i_read + 1:]
+            fr = [r for st in rest for r in found_offset(st, 'FOUND')]
+            if len(fr) != 1:
+                raise Untranslatable("find_token_reverse: one FOUND return "
+                                     "expected in the loop")
+            off = [k.value for k in fr[0].value.keywords if k.arg == 'offset']
+            tr2 = Tr(names={'read_offset': 'ro', 'chunk_offset': 'i'})
+            t2, _ = tr2.expr(off[0])
+            self.exprs.append(('ftr_found', ['ro', 'i'], 'Z', t2, 'Z',
+                               ast.unparse(fr[0])))
+            # after the FOUND return: `if attempts <= 0: break`,
+            # `current_offset = ...`, `if <stop>: return REACHED_EOF 0`
+            upd = [st for st in rest if isinstance(st, ast.Assign)
+                   and ast.unparse(st.targets[0]) == 'current_offset']
+            if len(upd) != 1:
+                raise Untranslatable("find_token_reverse: one update of "
+                                     "current_offset expected")
+            tr3 = Tr(names={'current_offset': 'cur'},
+                     subst={'len(chunk)': ('n', 'Z', ['n'])})
+            t3, _ = tr3.expr(upd[0].value)
+            self.exprs.append(('ftr_next_cur', ['cur', 'n'], 'Z', t3, 'Z',
+                               ast.unparse(upd[0])))
+            after = rest[rest.index(upd[0]) + 1:]
+            stops = [st for st in after if isinstance(st, ast.If)
+                     and found_offset(st, 'REACHED_EOF')]
+            if len(stops) != 1 or stops[0].orelse:
+                raise Untranslatable("find_token_reverse: one start-of-file "
+                                     "stop expected after the update")
+            tr4 = Tr(names={'read_offset': 'ro', 'start_offset': 'start',
+                            'current_offset': 'cur'})
+            t4 = tr4.cond(stops[0].test)
+            args = [a for a in ['ro', 'start', 'cur'] if a in tr4.free]
+            self.exprs.append(('ftr_stop', args, 'Z', t4, 'bool',
+                               ast.unparse(stops[0])))
+            brk = [st for st in rest[:rest.index(upd[0])]
+                   if isinstance(st, ast.If) and len(st.body) == 1
+                   and isinstance(st.body[0], ast.Break)]
+            if len(brk) != 1:
+                raise Untranslatable("find_token_reverse: attempts break "
+                                     "expected before the update")
+        self.item('find_token_reverse arithmetic', ftr)
+
+        def ft():
+            f, lp = the_loop('LogFileDateSinceSeeker.find_token')
+            i_read, read_arg = call_arg(lp.body, 'self.file.read')
+            tr = Tr(attrs={HZ: 'H'})
+            t1, _ = tr.expr(read_arg)
+            self.exprs.append(('ft_read_size', ['H'], 'Z', t1, 'Z',
+                               ast.unparse(lp.body[i_read])))
+            fr = found_offset(lp, 'FOUND')
+            if len(fr) != 1:
+                raise Untranslatable("find_token: one FOUND return expected")
+            off = [k.value for k in fr[0].value.keywords if k.arg == 'offset']
+            # found_offset may be a local computed just before
+            defs_ = [st for st in ast.walk(lp) if isinstance(st, ast.Assign)
+                     and ast.unparse(st.targets[0]) == ast.unparse(off[0])]
+            e = defs_[0].value if len(defs_) == 1 else off[0]
+            tr2 = Tr(names={'start_offset': 'start', 'current_offset': 'cur',
+                            'chunk_offset': 'i'})
+            t2, _ = tr2.expr(e)
+            self.exprs.append(('ft_found', ['start', 'cur', 'i'], 'Z', t2,
+                               'Z', ast.unparse(e)))
+            upd = [st for st in lp.body if isinstance(st, ast.Assign)
+                   and ast.unparse(st.targets[0]) == 'current_offset']
+            if len(upd) != 1:
+                raise Untranslatable("find_token: one update of "
+                                     "current_offset expected")
+            tr3 = Tr(names={'current_offset': 'cur'},
+                     subst={'len(chunk)': ('n', 'Z', ['n'])})
+            t3, _ = tr3.expr(upd[0].value)
+            self.exprs.append(('ft_next_cur', ['cur', 'n'], 'Z', t3, 'Z',
+                               ast.unparse(upd[0])))
+            seeks = [n for n in f.body if isinstance(n, ast.Expr)
+                     and isinstance(n.value, ast.Call)
+                     and ast.unparse(n.value.func) == 'self.file.seek']
+            if len(seeks) != 1 or \
+                    ast.unparse(seeks[0].value.args[0]) != 'start_offset':
+                raise Untranslatable("find_token: initial seek(start_offset) "
+                                     "expected before the loop")
+        self.item('find_token arithmetic', ft)
+
     # ---- output
     def params_v(self):
         out = ["(* GENERATED from the repository working tree by "
